@@ -160,6 +160,236 @@ def one_line(prg: list[AST]) -> Optional[str]:
     return " ".join(str(s) for s in body)
 
 
+# ---------------------------------------------------------------------------------------------
+# second generation: mutators that change the meaning of the program (clingo is asked again for the reference
+# semantics), may extend the universe / the declared inputs, and may produce SEVERAL variants per program.
+# A mutator of this kind returns a list of {"prog": text, "universe": [...facts added...], "inp": [[name, arity], ...]}.
+
+
+def _vars(node: AST) -> list[str]:
+    seen: list[str] = []
+
+    class _V(Transformer):
+        def visit_Variable(self, n: AST) -> AST:  # pylint: disable=invalid-name
+            if n.name != "_" and n.name not in seen:
+                seen.append(n.name)
+            return n
+
+    _V().visit(node)
+    return seen
+
+
+class _Rename(Transformer):
+    def __init__(self, old: str, new: str) -> None:
+        self.old, self.new = old, new
+
+    def visit_Variable(self, n: AST) -> AST:  # pylint: disable=invalid-name
+        return n.update(name=self.new) if n.name == self.old else n
+
+
+def notnot_literals(prg: list[AST]) -> list[dict]:
+    """one variant per positive body literal (symbolic atom or assigning aggregate) made doubly negated; variants in
+    which a variable loses its only binder are unsafe and are rejected by clingo"""
+    out = []
+    for si, s in enumerate(prg):
+        if s.ast_type not in (ASTType.Rule, ASTType.Minimize):
+            continue
+        for li, lit in enumerate(s.body):
+            if lit.ast_type != ASTType.Literal or lit.sign != Sign.NoSign:
+                continue
+            if lit.atom.ast_type == ASTType.SymbolicAtom or (
+                    lit.atom.ast_type in (ASTType.BodyAggregate, ASTType.Aggregate) and _assigns(lit.atom)):
+                body = list(s.body)
+                body[li] = lit.update(sign=Sign.DoubleNegation)
+                cp = list(prg)
+                cp[si] = s.update(body=body)
+                out.append({"prog": _text(cp)})
+    return out[:6]
+
+
+def _derived(prg: list[AST]) -> list[tuple[str, int]]:
+    preds: list[tuple[str, int]] = []
+
+    def add(atom: AST) -> None:
+        if atom.ast_type == ASTType.SymbolicAtom and atom.symbol.ast_type == ASTType.Function:
+            key = (atom.symbol.name, len(atom.symbol.arguments))
+            if key not in preds and not key[0].startswith("-"):
+                preds.append(key)
+
+    for s in prg:
+        if s.ast_type != ASTType.Rule:
+            continue
+        h = s.head
+        if h.ast_type == ASTType.Literal and h.sign == Sign.NoSign:
+            add(h.atom)
+        elif h.ast_type in (ASTType.Aggregate, ASTType.Disjunction):
+            for e in h.elements:
+                add(e.literal.atom)
+        elif h.ast_type == ASTType.HeadAggregate:
+            for e in h.elements:
+                add(e.condition.literal.atom)
+    return preds
+
+
+def _consts(universe: list[str]) -> list[str]:
+    import re  # pylint: disable=import-outside-toplevel
+
+    ints, syms = [], []
+    for f in universe:
+        for tok in re.findall(r"[(,]\s*(-?\d+|[a-z]\w*)\s*(?=[,)])", f):
+            (ints if tok.lstrip("-").isdigit() else syms).append(tok)
+    ints = sorted(set(ints), key=int)
+    pick = ints[:1] + ints[-1:] if ints else []
+    pick += sorted(set(syms))[:1]
+    return pick or ["1", "2"]
+
+
+def _facts(name: str, arity: int, universe: list[str]) -> list[str]:
+    cs = _consts(universe)
+    a, b = cs[0], cs[-1]
+    if arity == 0:
+        return [name]
+    rows = [[a] * arity, [b if i == arity - 1 else a for i in range(arity)]]
+    return sorted({f"{name}({','.join(r)})" for r in rows})
+
+
+def _args(arity: int) -> str:
+    return ",".join(f"XD{i}" for i in range(arity))
+
+
+def extra_definition(prg: list[AST], universe: list[str]) -> list[dict]:
+    """every derived predicate gets one more definition: a rule from a new input predicate, a body-less choice over it,
+    or a fact"""
+    out = []
+    base = _text(prg)
+    for name, arity in _derived(prg)[:3]:
+        if name.startswith("__"):
+            continue
+        xd = f"xd_{name}"
+        atom = f"{name}({_args(arity)})" if arity else name
+        xatom = f"{xd}({_args(arity)})" if arity else xd
+        facts = _facts(xd, arity, universe)
+        out.append({"prog": f"{base}\n{atom} :- {xatom}.", "universe": facts, "inp": [[xd, arity]], "tag": "rule"})
+        out.append({"prog": f"{base}\n{{ {atom} : {xatom} }}.", "universe": facts, "inp": [[xd, arity]], "tag": "choice"})
+        out.append({"prog": f"{base}\n{_facts(name, arity, universe)[-1]}.", "tag": "fact"})
+    return out
+
+
+def input_and_derived(prg: list[AST], universe: list[str]) -> list[dict]:
+    """a derived predicate is ALSO declared as input predicate and the instance has atoms of it"""
+    out = []
+    base = _text(prg)
+    for name, arity in _derived(prg)[:3]:
+        if name.startswith("__"):
+            continue
+        out.append({"prog": base, "universe": _facts(name, arity, universe), "inp": [[name, arity]]})
+    return out
+
+
+def rename_clash(prg: list[AST]) -> list[dict]:
+    """alpha-rename one variable of a statement to a variable name used by ANOTHER statement (meaning unchanged):
+    names that are local in one statement coincide with names that are global in another"""
+    out = []
+    stms = [(i, s) for i, s in enumerate(prg) if s.ast_type in (ASTType.Rule, ASTType.Minimize)]
+    allvars = {i: _vars(s) for i, s in stms}
+    for i, s in stms:
+        others: list[str] = []
+        for j, _ in stms:
+            if j != i:
+                others += [v for v in allvars[j] if v not in others]
+        targets = [g for g in others if g not in allvars[i]][:3]
+        for v in allvars[i][:5]:
+            for g in targets:
+                cp = list(prg)
+                cp[i] = _Rename(v, g).visit(s)
+                out.append({"prog": _text(cp)})
+    # spread over the candidates instead of taking the first ones only
+    step = max(1, len(out) // 10)
+    return out[::step][:10]
+
+
+def priority_variable(prg: list[AST]) -> list[dict]:
+    """a tuple variable of an objective becomes its priority"""
+    out = []
+    for si, s in enumerate(prg):
+        if s.ast_type != ASTType.Minimize:
+            continue
+        for ti, t in enumerate(s.terms):
+            if t.ast_type == ASTType.Variable:
+                cp = list(prg)
+                cp[si] = s.update(priority=t, terms=[x for k, x in enumerate(s.terms) if k != ti])
+                out.append({"prog": _text(cp)})
+                cp = list(prg)
+                cp[si] = s.update(priority=t)
+                out.append({"prog": _text(cp)})
+                break
+    return out[:4]
+
+
+def twin_objective(prg: list[AST], universe: list[str]) -> list[dict]:
+    """a second objective element with the textually identical weight, priority and tuple, fed by an input predicate"""
+    out = []
+    base = _text(prg)
+    for s in prg:
+        if s.ast_type != ASTType.Minimize:
+            continue
+        vs = _vars(s.update(body=[]))
+        if not vs or len(vs) > 3:
+            continue
+        xo = "xo_twin"
+        facts = _facts(xo, len(vs), universe)
+        tup = ",".join(str(t) for t in s.terms)
+        out.append({"prog": f"{base}\n:~ {xo}({','.join(vs)}). [{s.weight}@{s.priority}{',' + tup if tup else ''}]",
+                    "universe": facts, "inp": [[xo, len(vs)]]})
+        break
+    return out
+
+
+MUTATORS2 = [
+    ("notnot_literal", notnot_literals, False),
+    ("extra_definition", extra_definition, True),
+    ("input_and_derived", input_and_derived, True),
+    ("rename_clash", rename_clash, False),
+    ("priority_variable", priority_variable, False),
+    ("twin_objective", twin_objective, True),
+]
+
+
+def variants2(jobs, names: Optional[set] = None) -> Iterator[dict]:
+    """second-generation variants (see above); the configurations get the additional input predicates"""
+    for j in jobs:
+        try:
+            prg = [s for s in parse(j["prog"])]
+        except RuntimeError:
+            continue
+        for name, fn, needs_universe in MUTATORS2:
+            if names is not None and name not in names:
+                continue
+            try:
+                res = fn(prg, j["universe"]) if needs_universe else fn(prg)
+            except Exception:  # pylint: disable=broad-except
+                res = []
+            for k, v in enumerate(res):
+                if not v.get("prog") or (v["prog"] == j["prog"] and not v.get("inp")):
+                    continue
+                cfgs = []
+                for c in j["configs"]:
+                    c = dict(c)
+                    if v.get("inp") and isinstance(c["inp"], list):
+                        c["inp"] = c["inp"] + [x for x in v["inp"] if x not in c["inp"]]
+                    elif v.get("inp"):
+                        continue  # auto-detected inputs cannot be extended
+                    cfgs.append(c)
+                if not cfgs:
+                    continue
+                uni = list(j["universe"]) + [f for f in v.get("universe", []) if f not in j["universe"]]
+                yield job(j["family"] + "~" + name, v["prog"], uni, cfgs, consts=j["consts"],
+                          max_facts=j["max_facts"], checks=j["checks"],
+                          meta=dict(j["meta"], mutator=name, variant=k, tag=v.get("tag")))
+
+
+
+
 MUTATORS: list[tuple[str, Callable[[list[AST]], Optional[str]]]] = [
     ("rev_statements", rev_statements),
     ("rev_bodies", rev_bodies),
